@@ -304,6 +304,16 @@ class _Normalise(ast.NodeTransformer):
         # statement of a path through the body, where it means "fall out of this copy")
         self.generic_visit(node)
         it = node.iter
+        # `for x in filter(F, IT): BODY`  ->  `for x in IT: if F(x): BODY`   (filter is lazy: the same interleaving of F and BODY)
+        if isinstance(it, ast.Call) and isinstance(it.func, ast.Name) and it.func.id == "filter" and len(it.args) == 2 and not it.keywords and isinstance(node.target, ast.Name) \
+                and (_is_pure_chain(it.args[0]) or (isinstance(it.args[0], ast.Constant) and it.args[0].value is None)):
+            f, src = it.args
+            var = ast.copy_location(ast.Name(id=node.target.id, ctx=ast.Load()), node)
+            test = var if isinstance(f, ast.Constant) else ast.copy_location(ast.Call(func=f, args=[var], keywords=[]), it)
+            inner = ast.copy_location(ast.If(test=test, body=node.body, orelse=[]), node)
+            node = ast.copy_location(ast.For(target=node.target, iter=src, body=[inner], orelse=node.orelse, type_comment=None), node)
+            ast.fix_missing_locations(node)
+            return node
         if not (isinstance(it, (ast.Tuple, ast.List)) and 1 <= len(it.elts) <= 4 and isinstance(node.target, ast.Name) and not node.orelse
                 and all(_is_pure_chain(e) or isinstance(e, ast.Constant) for e in it.elts)):
             return node
@@ -396,6 +406,18 @@ class _Normalise(ast.NodeTransformer):
                 if not hasattr(x, "lineno"):
                     ast.copy_location(x, node)
             return ast.copy_location(loop, node)
+        # `yield from (E for x in IT if C ...)`  ->  `for x in IT: if C: yield E`   (a generator expression is as lazy as the loop)
+        if isinstance(v, ast.YieldFrom) and isinstance(v.value, ast.GeneratorExp) and not any(g.is_async for g in v.value.generators):
+            inner = [ast.Expr(value=ast.Yield(value=v.value.elt))]
+            for g in reversed(v.value.generators):
+                for t in reversed(g.ifs):
+                    inner = [ast.If(test=t, body=inner, orelse=[])]
+                inner = [ast.For(target=g.target, iter=g.iter, body=inner, orelse=[], type_comment=None)]
+            loop = inner[0]
+            for x in ast.walk(loop):
+                if not hasattr(x, "lineno"):
+                    ast.copy_location(x, node)
+            return self.visit(ast.copy_location(loop, node))
         return node
 
     def visit_With(self, node):
@@ -452,7 +474,8 @@ class Program:
         own = {m.name: (m.tree, m.path.endswith("__init__.py")) for m in self.modules.values() if not m.is_dep}
         trees, self.inline_log = inline_package(own, known)
         for name, tree in trees.items():
-            self.modules[name].tree = tree
+            # expanded code is normalised once more (an expanded `if` nested in the caller's `if` is the merged test again, ...)
+            self.modules[name].tree = _Normalise().visit(tree) if self.inline_log else tree
         for m in list(self.modules.values()):
             self._index_module(m)
         self._resolve_bases()
